@@ -329,6 +329,20 @@ def rule_r2_r3_r4(ctx):
                 emitted |= {e.value for e in c.elts if isinstance(e, ast.Constant) and isinstance(e.value, str)}
             elif isinstance(c, ast.Constant) and isinstance(c.value, str):
                 emitted |= set(c.value)
+    # … or a module-level table from characters to token types that get_token looks the character up in
+    #     (`{**dict.fromkeys("+-*/%", "OP"), "(": "LPAREN", …}` with `return (table.get(ch), ch)`)
+    for n in own_nodes(tok.node):
+        tbl = None
+        if isinstance(n, ast.Call) and isinstance(n.func, ast.Attribute) and n.func.attr == "get" and isinstance(n.func.value, ast.Name):
+            tbl = n.func.value.id
+        elif isinstance(n, ast.Subscript) and isinstance(n.value, ast.Name) and isinstance(n.ctx, ast.Load):
+            tbl = n.value.id
+        if tbl is None or tbl in tok.params:
+            continue
+        val = tok.module.assigns.get(tbl)
+        for k, v in (_literal_table(val) or {}).items():
+            if v == "OP" and isinstance(k, str):
+                emitted.add(k)
     ctx.require(len(emitted) >= 5, "tokenizer operator set not recognised")
     # the token stream is read-only for the grammar: the parser's current token is only ever replaced by the next
     # token of the tokenizer (no handler rewrites a token)
@@ -353,6 +367,31 @@ def rule_r2_r3_r4(ctx):
         ctx.check("R4", f"token {op!r} consumed", op in consumed, tok, tok.node,
                   f"the tokenizer emits {op!r} but no parser tier consumes it", nontrivial=False,
                   construct=f"operator token {op}")
+
+
+def _literal_table(e) -> dict | None:
+    """The mapping a dict display denotes when it is built from constants: `{"a": 1, **dict.fromkeys("xy", 2), **{…}}`."""
+    if isinstance(e, ast.Call) and (dotted_of(e.func) or "") == "dict.fromkeys" and len(e.args) == 2 and isinstance(e.args[1], ast.Constant):
+        ks = e.args[0]
+        if isinstance(ks, ast.Constant) and isinstance(ks.value, str):
+            return {c: e.args[1].value for c in ks.value}
+        if isinstance(ks, (ast.Tuple, ast.List, ast.Set)) and all(isinstance(x, ast.Constant) for x in ks.elts):
+            return {x.value: e.args[1].value for x in ks.elts}
+        return None
+    if not isinstance(e, ast.Dict):
+        return None
+    out: dict = {}
+    for k, v in zip(e.keys, e.values):
+        if k is None:
+            inner = _literal_table(v)
+            if inner is None:
+                return None
+            out.update(inner)
+        elif isinstance(k, ast.Constant) and isinstance(v, ast.Constant):
+            out[k.value] = v.value
+        else:
+            return None
+    return out
 
 
 def _expr_aliases(f) -> set[str]:
